@@ -1,2 +1,6 @@
 import Pymodbus.Model.Prelude
 import Pymodbus.Model.Store
+import Pymodbus.Model.Pdu
+import Pymodbus.Model.Exec
+import Pymodbus.Spec.StoreSpec
+import Pymodbus.Spec.RegisterFile
